@@ -339,7 +339,13 @@ def run_op(op, cache: dict):
 
         def f():
             ld = loaded()
-            v = mh.to_odx_value(vals)
+            # "_kept": the caller keeps one Python object for its values and passes it again in the next mode
+            if "_kept" in op:
+                if "obj" not in op["_kept"]:
+                    op["_kept"]["obj"] = mh.to_odx_value(vals)
+                v = op["_kept"]["obj"]
+            else:
+                v = mh.to_odx_value(vals)
             if not isinstance(v, dict):
                 raise TypeError("top level values must be a dict")
             if msg["kind"] == "request":
@@ -409,6 +415,7 @@ def _worker(argv):
             rec = {"S1": s1, "N": n, "S2": s2}
             if op["op"] not in ("cli", "load-bad"):
                 cache_x.pop("__last__", None)
+                op["_kept"] = {}
                 ex.strict_mode = True
                 x1 = run_op(op, cache_x)
                 k = cache_x.get("__last__")
@@ -420,6 +427,7 @@ def _worker(argv):
                     loaded_strict[k] = False
                 ex.strict_mode = True
                 x2 = run_op(op, cache_x)
+                op.pop("_kept", None)
                 rec["X"] = {"S1": x1, "N": xn, "S2": x2, "loaded_strict": bool(loaded_strict.get(k))}
             out.append(rec)
     with open(outp, "wb") as fh:
